@@ -142,7 +142,8 @@ theorem blr_byteBuf : BlR .byteBuf := by
       cases a <;> first | exact absurd ⟨_, _, _, _, _, rfl⟩ hl | (simp only [blameRead])
     rw [hb]
     simp only [blameScalar]
-    have hc : Read.cast .byteBuf a lv = castScalar .byteBuf a lv := by simp only [Read.cast]
+    have hc : Read.cast .byteBuf a lv = castScalar .byteBuf a lv := by
+      cases a <;> first | exact absurd ⟨_, _, _, _, _, rfl⟩ hl | (simp only [Read.cast])
     rw [← hc]
     refine whole_blame h hn hp hu ?_
     by_cases hl' : leafArr a = true
